@@ -1728,6 +1728,124 @@ def run_super_stats(ctx):
 
 
 # ---------------------------------------------------------------------------------------------
+# evaluate_supersampled with a LIST of generators -> ModeBasis (model: supersampledList)
+
+def super_list_case(ctx, gspec, specs, over, st, sparse, want_model=True):
+    """evaluate_supersampled([gen, ...], grid, over, statistic=st, make_sparse=sparse) on the regular / separated
+    representation.  Oracle on the real code alone: the ModeBasis is attached to the grid, has one mode per generator, in
+    order, each mode attached to the grid and exactly the field the generator gives on its own; `is_sparse` as asked.
+    -> (request lines, check(out))"""
+    import hcipy
+    reps, xs, ys, sep = make_reps(gspec)
+    built = [build(sp) for sp in specs]
+    gens = [b[0] for b in built]
+    case = {'kind': 'super-list', 'grid': gspec, 'shapes': specs, 'over': over, 'stat': st, 'sparse': sparse}
+    ov = (np.round(over) * np.ones(2)).astype(int)
+    real = {}
+    for name in ('regular', 'separated'):
+        g = reps.get(name)
+        if g is None or sep is None:
+            continue
+        try:
+            with warnings.catch_warnings():
+                warnings.simplefilter('ignore')
+                mb = hcipy.evaluate_supersampled(list(gens) if len(specs) % 2 else tuple(gens), g, over, statistic=st, make_sparse=sparse)
+        except Exception as e:                                  # noqa
+            real[name] = ('err', type(e).__name__)
+            ctx.count('super-list:' + type(e).__name__)
+            # a list must fail exactly when its first generator does (an empty list: ValueError from ModeBasis)
+            if specs:
+                try:
+                    with warnings.catch_warnings():
+                        warnings.simplefilter('ignore')
+                        hcipy.evaluate_supersampled(gens[0], g, over, statistic=st)
+                    ctx.violation('super-list:raises', 'evaluate_supersampled raises %s for a list of generators but not for its first generator on a %s grid' % (type(e).__name__, name), case)
+                except Exception as e2:                         # noqa
+                    if type(e2) is not type(e):
+                        ctx.violation('super-list:raises', 'a list of generators raises %s, its first generator alone %s' % (type(e).__name__, type(e2).__name__), case)
+            continue
+        modes = [np.array(mb[i], float).ravel() for i in range(len(mb))]
+        real[name] = ('ok', modes)
+        ctx.count('super-list:ok')
+        ctx.count('super-list-modes', len(modes))
+        if mb.grid is not g or any(getattr(mb[i], 'grid', None) is not g for i in range(len(mb))):
+            ctx.violation('super-list:not-attached', 'the ModeBasis of evaluate_supersampled([...]) (or one of its modes) is not attached to the %s grid' % name, case)
+        if len(modes) != len(specs):
+            ctx.violation('super-list:length', '%d generators give %d modes' % (len(specs), len(modes)), case)
+            continue
+        if bool(mb.is_sparse) != bool(sparse):
+            ctx.violation('super-list:sparse', 'make_sparse=%r gives is_sparse=%r' % (sparse, mb.is_sparse), case)
+        for i, gen in enumerate(gens):
+            with warnings.catch_warnings():
+                warnings.simplefilter('ignore')
+                single = np.array(hcipy.evaluate_supersampled(gen, g, over, statistic=st), float).ravel()
+            if single.shape != modes[i].shape or np.abs(single - modes[i]).max() > 0:
+                ctx.violation('super-list:mode-differs', 'mode %d of the list form differs from the generator evaluated on its own (%s, %s grid)' % (i, st, name), case)
+                break
+    ctx.case(None, ('super-list', len(specs), st, sparse, gspec[0], tuple(int(t) for t in ov)) if any(v[0] == 'ok' and any(0 < np.count_nonzero(m) < len(m) for m in v[1]) for v in real.values()) else None)
+    if not want_model or sep is None or ov.min() < 0 or not real:
+        return [], lambda out: None
+    tol = rat(REL_TOL * scale_of(xs, ys, max([b[2] for b in built] + [1.0])))
+    line = 'C12 superlist %s %d %d %s %s %s %d %s' % (st, ov[0], ov[1], tol, rat_list(sep[0]), rat_list(sep[1]), len(specs), ' '.join(' '.join(b[1]) for b in built))
+    names = {'IndexError': 'err index', 'ZeroDivisionError': 'err zerodiv', 'AttributeError': 'err attribute', 'ValueError': 'err value'}
+
+    def check(out):
+        resp = out[0]
+        parts = resp.split(' ')
+        for name, r in real.items():
+            ctx.traces_validated += 1
+            key = 'super-list:model:%s' % name
+            if r[0] == 'err':
+                if names.get(r[1]) != resp:
+                    ctx.disagree('C12 superlist', {'case': case, 'impl': r[1], 'model': resp[:60]}, key=key)
+                continue
+            if parts[0] != 'ok' or len(parts) != 1 + 2 * len(r[1]):
+                ctx.disagree('C12 superlist', {'case': case, 'impl': 'ok, %d modes' % len(r[1]), 'model': resp[:60]}, key=key)
+                continue
+            for i, rv in enumerate(r[1]):
+                mv, near = _rats(parts[1 + 2 * i]), _bits(parts[2 + 2 * i])
+                if len(mv) != len(rv):
+                    ctx.disagree('C12 superlist', {'case': case, 'mode': i, 'detail': 'length', 'model': len(mv), 'impl': len(rv)}, key=key)
+                    break
+                bad = [j for j in range(len(mv)) if not near[j] and abs(mv[j] - rv[j]) > 1e-9]
+                ctx.count('super-list-points-compared', len(mv) - sum(near))
+                if bad:
+                    ctx.disagree('C12 superlist', {'case': case, 'mode': i, 'rep': name, 'index': bad[0], 'model': mv[bad[0]], 'impl': float(rv[bad[0]])}, key=key)
+                    break
+    return [line], check
+
+
+SUPER_LIST_CORPUS = [
+    (['regular', [5, 4], [0.5, 0.75], [-1.0, -1.125]], [['circle', 1.5, [0.25, 0.0]], ['rect', [1.0, 0.5], None], ['regpoly', 6, 1.75, 0.25, None]], [2, 3], 'mean', True),
+    (['sep', [1.75, 1.0, 0.5, 0.0, -0.5, -1.25], [-1.5, -0.375, 0.0, 0.375, 1.25]], [['circle', 4.0, None], ['circle', 0.125, [5.0, 5.0]]], 2, 'max', True),
+    (['regular', [4, 4], [0.5, 0.5], [-0.75, -0.75]], [], 2, 'mean', True),
+    (['regular', [4, 3], [0.5, 0.5], [-0.75, -0.5]], [['rect', [1.0, 0.5], None], ['circle', 1.0, None]], [0, 2], 'sum', False),
+    (['sep', [0.5], [0.0, 1.0]], [['circle', 1.5, None]], 2, 'min', False),
+]
+
+
+def run_super_lists(ctx):
+    cases = list(SUPER_LIST_CORPUS)
+    for _ in range(ctx.scale(10, 80)):
+        fam = str(ctx.rng.choice(SUPER_STAT_FAMILIES))
+        gspec = gen_grid_family(ctx.rng, fam, nmax=6)
+        specs = [gen_shape(ctx.rng) for _ in range(int(ctx.rng.integers(1, 5)))]
+        over = int(ctx.rng.integers(1, 3)) if ctx.rng.random() < 0.5 else [int(ctx.rng.integers(1, 3)), int(ctx.rng.integers(1, 4))]
+        if ctx.rng.random() < 0.08:
+            over = [0, 1]
+        cases.append((gspec, specs, over, str(ctx.rng.choice(SUPER_STATS)), bool(ctx.rng.random() < 0.6)))
+    lines, checks = [], []
+    for gspec, specs, over, st, sparse in cases:
+        l, chk = super_list_case(ctx, gspec, specs, over, st, sparse)
+        checks.append((len(lines), len(l), chk))
+        lines += l
+    out = ctx.model(lines)
+    for base, cnt, chk in checks:
+        if cnt:
+            chk(out[base:base + cnt])
+
+
+# ---------------------------------------------------------------------------------------------
 # negative diameters: outside the domain of the property; the model predicts what the code does (documented, not reported)
 
 def run_negative_diameter(ctx):
@@ -1887,6 +2005,7 @@ def run(ctx):
     check_hexqr(ctx)
     run_super_errors(ctx)
     run_super_stats(ctx)
+    run_super_lists(ctx)
     run_negative_diameter(ctx)
     out = ctx.model(lines)
     for base, cnt, chk in checks:
@@ -1972,6 +2091,8 @@ def replay(ctx, case):
         run_vlt(ctx, case['kw'], case['gseed'], case['fam'], case.get('nseg', 2))
     elif case.get('kind') == 'recipe':
         run_recipe(ctx, case['name'], case['kw'], case['gseed'], case['fam'], case.get('feat'))
+    elif case.get('kind') == 'super-list':
+        super_list_case(ctx, case['grid'], case['shapes'], case['over'], case['stat'], case['sparse'], want_model=False)
     elif case.get('kind') == 'super-stat':
         super_stat_case(ctx, case['grid'], case['shape'], case['over'], want_model=False)
     elif case.get('kind') == 'pupil':
